@@ -23,6 +23,7 @@ func TestMain(m *testing.M) {
 		os.Exit(0)
 	}
 	code := m.Run()
+	CleanupScratch()
 	DumpStats()
 	os.Exit(code)
 }
@@ -137,4 +138,26 @@ func TestC02Sweep(t *testing.T) {
 			t.Fatalf("C02 sweep block %d: %v", b, err)
 		}
 	}
+}
+
+// c04Templates: one hole (§) per parser state; TestC04Enum fills it with every
+// single byte value, so every (state, next byte) transition of both state
+// machines is exercised for totality / exclusivity / determinism.
+var c04Templates = []string{
+	"[§]", "[1§]", "[\"§\"]", "[\"\\§\"]", "[\"a\"§]", "[\"a\"§,1]", "{§}", "{\"§\":1}", "{\"\\§\":1}", "{\"a\"§:1}", "{\"a\":§}", "{\"a\":1§}",
+	"{\"a\":\"§\"}", "{\"a\":\"\\§\"}", "{\"a\":\"b\"§}", "{\"a\":[]§}", "{\"a\":{}§}", "[[]§]", "[{}§]", "§[1]", "§{\"a\":1}", "[1]§", "{\"a\":1}§",
+	"[tru§]", "{\"a\":1,§}", "{\"a\":[1,§]}", "[{\"a\":§}]", "[\"\\u00§\"]", "{\"\\ud83d\\§\":1}",
+}
+
+func TestC04Enum(t *testing.T) {
+	p := registry["C04"]
+	for _, tpl := range c04Templates {
+		for b := 0; b < 256; b++ {
+			in := strings.Replace(tpl, "§", string([]byte{byte(b)}), 1)
+			if err := RunCase(p, &C04Case{Mode: "bytes", Bytes: RawBytes(in)}); err != nil {
+				t.Fatalf("C04 enumeration %q with byte 0x%02x: %v", tpl, b, err)
+			}
+		}
+	}
+	global.CountN("enum.state_byte_pairs", len(c04Templates)*256)
 }
